@@ -104,6 +104,20 @@ class Opaque(AV):
         return 'Opaque(%s)' % self.text
 
 
+P_VALUE = Opaque('p')
+
+
+class ClassV(AV):
+    """a node class passed around as a value (self.asttypes.X)"""
+    __slots__ = ('cls',)
+
+    def __init__(self, cls):
+        self.cls = cls
+
+    def __repr__(self):
+        return 'ClassV(%s)' % self.cls
+
+
 class Ref(AV):
     __slots__ = ('oid',)
 
@@ -268,6 +282,27 @@ class Interp(object):
         self.lm = lexmodel
         self.kinds = kinds     # nonterminal -> set of kinds, or None
 
+    def is_p(self, node, st):
+        """does the expression denote the production object `p` (under
+        its own name or as a parameter of an inlined helper)?"""
+        if not isinstance(node, ast.Name):
+            return False
+        if node.id in st.env:
+            return st.env[node.id] is P_VALUE
+        return node.id == 'p'
+
+    def helper_method(self, f):
+        """FunctionDef of self.<name> if it is a helper method of the
+        Parser class (not a p_* action)"""
+        if isinstance(f, ast.Attribute) and isinstance(
+                f.value, ast.Name) and f.value.id == 'self':
+            cls = self.g.parser_module.classes.get('Parser')
+            for st_ in cls.body:
+                if isinstance(st_, ast.FunctionDef) and \
+                        st_.name == f.attr and not st_.name.startswith('p_'):
+                    return st_
+        return None
+
     # -- kinds oracle ---------------------------------------------------
 
     def kinds_of_sym(self, sym):
@@ -416,6 +451,13 @@ class Interp(object):
             for s, _ in self.eval(v, st):
                 yield s, 'next', None
             return
+        if isinstance(v, ast.Call) and (
+                self.helper_method(v.func) is not None or (
+                    isinstance(v.func, ast.Name) and isinstance(
+                        st.env.get(v.func.id), FuncV))):
+            for s, _ in self.eval(v, st):
+                yield s, 'next', None
+            return
         self.err(stmt, 'unsupported expression statement')
 
     def s_Assign(self, stmt, st):
@@ -427,8 +469,7 @@ class Interp(object):
             yield s, 'next', None
 
     def assign(self, tgt, val, s, stmt):
-        if isinstance(tgt, ast.Subscript) and isinstance(
-                tgt.value, ast.Name) and tgt.value.id == 'p':
+        if isinstance(tgt, ast.Subscript) and self.is_p(tgt.value, s):
             k = self.const_int(tgt.slice)
             if k != 0:
                 self.err(stmt, 'store to p[%s]' % k)
@@ -554,8 +595,7 @@ class Interp(object):
                 s.heap[obj.oid], NodeRec):
             self.err(call, 'setpos on a value that is not a node '
                      'constructed in this action')
-        if not call.args or not (isinstance(call.args[0], ast.Name) and
-                                 call.args[0].id == 'p'):
+        if not call.args or not self.is_p(call.args[0], s):
             self.err(call, 'setpos without p')
         idx = 1
         additional = ()
@@ -792,7 +832,9 @@ class Interp(object):
     def e_Name(self, node, st):
         if node.id in st.env:
             return [(st, st.env[node.id])]
-        if node.id in ('self', 'p', 'asttypes', 'list', 'isinstance',
+        if node.id == 'p':
+            return [(st, P_VALUE)]
+        if node.id in ('self', 'asttypes', 'list', 'isinstance',
                        'len', 'setattr', 'getattr', 'ProductionError',
                        'ECMASyntaxError', '_'):
             return [(st, Opaque(node.id))]
@@ -884,7 +926,7 @@ class Interp(object):
         return out
 
     def e_Subscript(self, node, st):
-        if isinstance(node.value, ast.Name) and node.value.id == 'p':
+        if self.is_p(node.value, st):
             if isinstance(node.slice, ast.Slice):
                 lo = self.const_int(node.slice.lower) \
                     if node.slice.lower else None
@@ -927,6 +969,11 @@ class Interp(object):
         return Slot(k, self.prod.rhs[k - 1])
 
     def e_Attribute(self, node, st):
+        text = ast.unparse(node)
+        for prefix in ('self.asttypes.', 'asttypes.'):
+            if text.startswith(prefix) and \
+                    text[len(prefix):] in self.am.classes:
+                return [(st, ClassV(text[len(prefix):]))]
         out = []
         for s, base in self.eval(node.value, st):
             base = self.deref_slot(base, s)
@@ -949,9 +996,16 @@ class Interp(object):
         f = node.func
         # len(p)
         if isinstance(f, ast.Name) and f.id == 'len' and len(
-                node.args) == 1 and isinstance(
-                node.args[0], ast.Name) and node.args[0].id == 'p':
+                node.args) == 1 and self.is_p(node.args[0], st):
             return [(st, Const(self.n))]
+        # helper method of the Parser class: inline
+        hm = self.helper_method(f)
+        if hm is not None:
+            return self.inline(node, hm, st, method=True)
+        # a node class held in a variable
+        if isinstance(f, ast.Name) and isinstance(
+                st.env.get(f.id), ClassV):
+            return self.construct(node, st.env[f.id].cls, st)
         # local function: inline
         if isinstance(f, ast.Name) and isinstance(
                 st.env.get(f.id), FuncV):
@@ -1046,18 +1100,50 @@ class Interp(object):
             out.append((s, ref))
         return out
 
-    def inline(self, call, fdef, st):
+    def inline(self, call, fdef, st, method=False):
         a = fdef.args
-        if a.vararg or a.kwarg or a.kwonlyargs or a.defaults or \
-                call.keywords:
+        if a.vararg or a.kwarg or a.kwonlyargs:
             self.err(call, 'unsupported local function signature')
         names = [x.arg for x in a.args]
-        if len(names) != len(call.args):
+        if method:
+            if not names or names[0] != 'self':
+                self.err(call, 'helper %s is not an instance method'
+                         % fdef.name)
+            names = names[1:]
+        defaults = [None] * (len(names) - len(a.defaults)) + list(a.defaults)
+        exprs = list(call.args)
+        kwnames = []
+        for kw in call.keywords:
+            if kw.arg is None or kw.arg not in names:
+                self.err(call, 'unsupported keyword argument')
+            kwnames.append(kw.arg)
+            exprs.append(kw.value)
+        if len(call.args) > len(names):
             self.err(call, 'argument count mismatch')
+        depth = getattr(self, '_inline_depth', 0)
+        if depth > 4:
+            self.err(call, 'helper calls nested too deeply')
+        self._inline_depth = depth + 1
         out = []
-        for s, vals in self.eval_seq(call.args, st):
+        for s, vals in self.eval_seq(exprs, st):
             saved = dict(s.env)
-            for n, v in zip(names, vals):
+            bound = dict(zip(names, vals[:len(call.args)]))
+            bound.update(zip(kwnames, vals[len(call.args):]))
+            for n, d in zip(names, defaults):
+                if n in bound:
+                    continue
+                if d is None:
+                    self._inline_depth = depth
+                    self.err(call, 'argument count mismatch')
+                if not isinstance(d, ast.Constant):
+                    self._inline_depth = depth
+                    self.err(call, 'non constant default of %s' % n)
+                bound[n] = Const(d.value)
+            if method:
+                # locals of the caller are not visible in a method
+                for k in list(s.env):
+                    del s.env[k]
+            for n, v in bound.items():
                 s.env[n] = v
             for s2, status, val in self.exec_block(fdef.body, s):
                 if status == 'raise':
@@ -1068,6 +1154,7 @@ class Interp(object):
                 env = dict(saved)
                 s2.env = env
                 out.append((s2, val if val is not None else Const(None)))
+        self._inline_depth = depth
         return out
 
 
